@@ -389,7 +389,7 @@ def encode_case(rng, mutate=None, big=False, clock=None):
 
 
 def decode_case(rng, b=None, how=None):
-    b = b or genb.rnd_bundle(rng, nblocks=rng.choice([0, 0, 1, 2, 3, 5, 24]))
+    b = b or genb.reorder(rng, genb.rnd_bundle(rng, nblocks=rng.choice([0, 0, 1, 2, 3, 5, 24])))
     raw, _ = genb.ref_bundle(b)
     how = how or rng.choice(["hex-p", "hex-p", "stdin-p", "stdin-p", "hex", "stdin", "HEX-p"])
     clock = gen_clock(rng)
